@@ -46,6 +46,7 @@ type caseT struct {
 	Crash   *crashT  `json:"crash,omitempty"`
 	Choices []int    `json:"choices"`
 	Phase2  []string `json:"phase2"` // retry | commit | resplitA | splitC | cancel
+	Batch   int      `json:"batch"`  // listing page size used by commits (0: default)
 }
 
 var trees = map[string]hx.Tree{
@@ -89,6 +90,7 @@ func drawCase(t *rapid.T) caseT {
 		c.Crash = &crashT{Actor: rapid.IntRange(0, len(c.Actors)-1).Draw(t, "crashactor"), Sel: rapid.IntRange(0, 999).Draw(t, "crashsel"), Land: rapid.Bool().Draw(t, "land")}
 	}
 	c.Choices = rapid.SliceOfN(rapid.IntRange(0, 5), 0, 120).Draw(t, "choices")
+	c.Batch = rapid.SampledFrom([]int{0, 0, 1, 2, 3, 4, 5, 8}).Draw(t, "batch")
 	np := rapid.IntRange(0, 3).Draw(t, "nphase2")
 	for i := 0; i < np; i++ {
 		c.Phase2 = append(c.Phase2, rapid.SampledFrom([]string{"retry", "commit", "commit", "resplitA", "splitC", "cancel"}).Draw(t, "p2"))
@@ -103,6 +105,7 @@ type result struct {
 }
 
 type world struct {
+	batch     int
 	sc        *hx.Scratch
 	env       *hx.Env
 	diamondID string
@@ -126,7 +129,11 @@ func (w *world) run(kind string, v *hx.Views) *result {
 		_ = trees["splitA1"].Write(dir)
 		_, r.err = hx.SplitAdd(v.Stores, repo, w.diamondID, "split-A", dir, core.SplitConcurrentFileUploads(1))
 	case "commit", "commit2":
-		d, err := hx.Commit(v.Stores, repo, w.diamondID, model.EnableConflicts)
+		var copts []core.Option
+		if w.batch > 0 {
+			copts = append(copts, core.BatchSize(w.batch))
+		}
+		d, err := hx.CommitWith(v.Stores, repo, w.diamondID, model.EnableConflicts, copts)
 		r.err = err
 		if d != nil {
 			r.bundleID = d.BundleID
@@ -159,7 +166,7 @@ func runCase(c caseT, forced []int) (runOutcome, error) {
 	var out runOutcome
 	sc := hx.NewScratch()
 	defer sc.Close()
-	w := &world{sc: sc, env: hx.NewEnv(), results: map[string]*result{}}
+	w := &world{sc: sc, env: hx.NewEnv(), results: map[string]*result{}, batch: c.Batch}
 	prep := w.env.Actor("prep")
 	if err := hx.CreateRepo(prep.Stores, repo); err != nil {
 		return out, err
@@ -176,7 +183,7 @@ func runCase(c caseT, forced []int) (runOutcome, error) {
 	crashN := 0
 	if c.Crash != nil {
 		kind := c.Actors[c.Crash.Actor]
-		dw := &world{sc: sc, env: w.env.Clone(), diamondID: w.diamondID, results: map[string]*result{}}
+		dw := &world{sc: sc, env: w.env.Clone(), diamondID: w.diamondID, results: map[string]*result{}, batch: c.Batch}
 		dv := dw.env.Actor("dry")
 		if strings.HasPrefix(kind, "commit") {
 			// a commit needs a done split to get anywhere
